@@ -148,6 +148,7 @@ theorem step_client (s : Sys F) (ev : Ev) :
   | setCfg cfg => exact ⟨rfl, rfl⟩
   | crit d => exact ⟨rfl, rfl⟩
   | failNext c => exact ⟨rfl, rfl⟩
+  | failAfter c kfa => exact ⟨rfl, rfl⟩
   | failBind c => exact ⟨rfl, rfl⟩
   | syncTimeout => exact ⟨rfl, rfl⟩
   | stamp idx weak ld ccb cct => exact ⟨rfl, rfl⟩
@@ -218,6 +219,7 @@ theorem relayLog_true (known : List Nat) (evs : List Ev) :
     | setCfg c => simpa [relayLog, relayables, ckAfter] using ih
     | crit d => simpa [relayLog, relayables, ckAfter] using ih
     | failNext c => simpa [relayLog, relayables, ckAfter] using ih
+    | failAfter c kfa => simpa [relayLog, relayables, ckAfter] using ih
     | failBind c => simpa [relayLog, relayables, ckAfter] using ih
     | syncTimeout => simpa [relayLog, relayables, ckAfter] using ih
     | stamp idx weak ld ccb cct => simpa [relayLog, relayables, ckAfter] using ih
@@ -244,6 +246,7 @@ theorem relayLog_false_noClient (known : List Nat) (evs : List Ev) (h : noClient
     | setCfg c => exact ih h
     | crit d => exact ih h
     | failNext c => exact ih h
+    | failAfter c kfa => exact ih h
     | failBind c => exact ih h
     | syncTimeout => exact ih h
     | stamp idx weak ld ccb cct => exact ih h
@@ -265,6 +268,7 @@ theorem relayLog_false_split (known : List Nat) (pre : List Ev) (now : Nat) (pkt
     | setCfg c => exact ih h
     | crit d => exact ih h
     | failNext c => exact ih h
+    | failAfter c kfa => exact ih h
     | failBind c => exact ih h
     | syncTimeout => exact ih h
     | stamp idx weak ld ccb cct => exact ih h
